@@ -359,6 +359,25 @@ pub fn run_unit(ctx: &mut Ctx, unit: u64) {
                 }
                 ctx.add("ops.skipped_over_1MiB", ex.skipped);
                 ctx.add(&format!("align.A{}", case.align), 1);
+                {
+                    let mut h = Fnv::new();
+                    for op in &case.ops {
+                        h.u64(match op {
+                            Op::Write { len, .. } => 1 + ((*len == 0) as u64) * 16,
+                            Op::Read { .. } => 2,
+                            Op::Flush => 3,
+                            Op::SeekStart(_) => 4,
+                            Op::SeekCur(_) => 5,
+                            Op::SeekEnd(_) => 6,
+                            Op::SetPos(_) => 7,
+                            Op::StreamPos => 8,
+                            Op::Accessors => 9,
+                            Op::Poke { .. } => 10,
+                            Op::CloneSelf => 11,
+                        });
+                    }
+                    ctx.aux.insert(h.get());
+                }
                 let nt = if ex.wrote_past_end { Some(Fnv::new().str(&format!("{:?}", case)).get()) } else { None };
                 ctx.done(unit, sub, ex.digest, nt);
                 if ex.wrote_past_end {
